@@ -267,7 +267,7 @@ def exhaustive_mask_cases(tier):
     """Every mask over a few small shapes (the mask codec incl. corner cropping)."""
     shapes = [(1,), (2,), (3,), (4,), (2, 2), (2, 3), (3, 2), (2, 2, 2)] if tier == 'quick' else \
              [(1,), (2,), (3,), (4,), (5,), (6,), (7,), (8,), (2, 2), (2, 3), (3, 2), (2, 4), (3, 3), (2, 2, 2),
-              (2, 2, 3), (3, 2, 2), (2, 1, 2, 1, 2), (1, 10), (11, 1)]
+              (2, 2, 3), (3, 2, 2), (2, 1, 2, 1, 2), (1, 10), (11, 1), (9,), (2, 5), (3, 4), (4, 3), (2, 3, 2)]
     out = []
     for shp in shapes:
         n = prod(shp)
@@ -388,7 +388,7 @@ def corpus(rng):
 def gen_cases(rng, tier):
     cases = corpus(rng)
     cases += exhaustive_mask_cases(tier)
-    nsmall, nbig, nlossy = (900, 70, 160) if tier == 'quick' else (9000, 700, 2500)
+    nsmall, nbig, nlossy = (2000, 150, 400) if tier == 'quick' else (30000, 2500, 8000)
     for _ in range(nsmall):
         cases.append(gen_object(rng))
     for _ in range(nbig):
@@ -974,7 +974,7 @@ def run(ctx):
                 'distributions as raw 64-bit patterns, 8 int dtypes, bool, units, read-only, 0-2 derivatives with '
                 'denominators) + set_pickle_digits cases (15 digits x 10 references, tuples, per-item ranges; oracle '
                 'only); non-trivial = has a masked element, a derivative, or lossy digits'
-                % ('n<=4, 2x3, 2x2x2' if ctx.tier == 'quick' else 'n<=8, up to 2x2x3, 3x3, 5 axes'))
+                % ('n<=4, 2x3, 2x2x2' if ctx.tier == 'quick' else 'n<=9, 3x4, 4x3, 2x3x2, 2x2x3, 3x3, 5 axes'))
     ctx.assumptions = [
         'values are float64 / int8..uint64 / bool arrays; float16/float32 input arrays are not generated',
         'uint64 values >= 2**63 are exercised by the direct oracle only (model integers are Z without wrap-around)',
